@@ -73,7 +73,16 @@ func (g *streamGen) publish() inPacket {
 	}
 	// payload size classes relative to the buffer
 	var pl int
-	switch rapid.SampledFrom([]string{"empty", "small", "small", "small", "edge", "edge", "fillsExactly", "big", "huge"}).Draw(g.rt, "sizeClass") {
+	classes := []string{"empty", "small", "small", "small", "edge", "edge", "fillsExactly", "big", "huge"}
+	if rapid.IntRange(0, 399).Draw(g.rt, "lengthWidth4Allowed") == 0 {
+		classes = []string{"width4"} // rare: 2 MiB per message
+	}
+	width4 := false
+	switch rapid.SampledFrom(classes).Draw(g.rt, "sizeClass") {
+	case "width4": // around the step from a three-byte to a four-byte remaining length
+		pl = 2097152 - head + rapid.IntRange(-1, 1).Draw(g.rt, "edge")
+		width4 = true
+		g.boundary = true
 	case "empty":
 		pl = 0
 	case "small":
@@ -96,7 +105,7 @@ func (g *streamGen) publish() inPacket {
 	if pl < 0 {
 		pl = 0
 	}
-	if g.buf > 8192 && pl > 3*g.buf {
+	if g.buf > 8192 && pl > 3*g.buf && !width4 {
 		pl = 3 * g.buf
 	}
 	p := &refmqtt.Packet{Type: refmqtt.PUBLISH, QoS: qos, Topic: topic, Payload: g.fill(pl, byte(g.n)),
